@@ -17,7 +17,9 @@ PROP = {
                   "enumerated parents; nothing of the name in the wire form; a disabled service sees nothing); "
                   "verdict oracle in both directions; cache transparency over histories of ~25 steps sharing one "
                   "cache of 0 (unlimited) to 10 bytes with entries expiring or ageing, failures and database "
-                  "changes. Exploration: no absence claim; the input space that matters (suffix kind x depth x "
+                  "changes. A failure of the service is either an error of the exchange or an answer with response code "
+                  "SERVFAIL/REFUSED and no records; in both cases the service has revealed nothing and later checks "
+                  "must not be answered from what that exchange left in the cache. Exploration: no absence claim; the input space that matters (suffix kind x depth x "
                   "what the database holds for an asked prefix x cache state) is small and covered densely.",
     "level_note": "Trusts crypto/sha256, encoding/hex, miekg/dns and x/net/publicsuffix (the latter also used by "
                   "the code under test: a wrong public-suffix table would be invisible). The clock is advanced by "
